@@ -184,7 +184,11 @@ func init() {
 				x.Put("pver", ver)
 				x.Put("pproto", string(proto))
 				x.Put("ptag", tagOf(set))
-				fmt.Fprintf(r.stdout, "%d|%d|%s|%s|%s|%s\n", plugin.CoreProtocolVersion, ver, "tcp", "127.0.0.1:1234", proto, "")
+				if p["segs"] == "5" { // the five documented segments and nothing after them (what a hand-written plugin prints)
+					fmt.Fprintf(r.stdout, "%d|%d|%s|%s|%s\n", plugin.CoreProtocolVersion, ver, "tcp", "127.0.0.1:1234", proto)
+				} else {
+					fmt.Fprintf(r.stdout, "%d|%d|%s|%s|%s|%s\n", plugin.CoreProtocolVersion, ver, "tcp", "127.0.0.1:1234", proto, "")
+				}
 				r.waitKilled()
 			})
 			x.Put("runner", r)
@@ -316,6 +320,9 @@ func init() {
 					if cl.NegotiatedVersion() != pver {
 						x.Fail("S", "NegotiatedVersion() = %d, announced %d [%s]", cl.NegotiatedVersion(), pver, desc)
 					}
+					if got := string(cl.Protocol()); got != pproto {
+						x.Fail("S", "the host speaks %q, the set registered under version %d announced %q [%s]", got, pver, pproto, desc)
+					}
 					wantHTag := fmt.Sprintf("host-v%d", pver)
 					if !contains(hs.vers, pver) {
 						wantHTag = fmt.Sprintf("host-legacy%d", pver)
@@ -380,6 +387,14 @@ func init() {
 								}
 							}
 						}
+					}
+				}
+			}
+			// plugins that print exactly the five documented segments
+			for _, h := range allSides([]int{1, 2}) {
+				for _, pl := range allSides([]int{1, 2}) {
+					for _, c := range [][2]string{{"1", "grpc"}, {"1", "alt"}, {"0", "alt"}} {
+						out = append(out, explore.Params{"host": h.String(), "plug": pl.String(), "gs": c[0], "pa": c[1], "env": "sent", "rep": "0", "segs": "5"})
 					}
 				}
 			}
